@@ -695,6 +695,15 @@ func (ex *c15Explorer) raceState(hist []int, key string) int {
 
 func TestVerifC15(t *testing.T) {
 	rep := mc.NewReport("C15")
+	if os.Getenv("VERIF_C15_ONLY_DURABLE") != "" { // debugging aid only
+		rep.Cap("VERIF_C15_ONLY_DURABLE")
+		rep.Rule = "debugging run of part 5 only"
+		c15RunDurablePart(t, rep)
+		if err := rep.Write(); err != nil {
+			t.Fatal(err)
+		}
+		return
+	}
 	ops := c15Ops()
 	ex := &c15Explorer{ops: ops, rep: rep, states: map[string][]int{}}
 	depth := mc.Pick(3, 4)
@@ -702,7 +711,7 @@ func TestVerifC15(t *testing.T) {
 		depth = min(depth, v)
 		rep.Cap(fmt.Sprintf("VERIF_C15_MAXDEPTH=%d", v))
 	}
-	rep.Rule = "part 1: every history up to the depth bound over {create metric a / b / ns:a, group a / ns:a, namespace ns / b, dashboard a; edit of the 1st and 2nd created entity naming its current or a stale version and keeping the name / a free name c / a possibly taken name a / a name in namespace ns:c; delete with current or stale version}, all requests through RawEditEntity, state-hashing BFS over the journal; part 2: at every distinct state reached, for every entity, {edit, delete, rename} built from the same observed version in all 6 orders on fresh replays and once from 3 concurrent goroutines; part 3: every history up to its depth bound of {create, edit 1st, edit 2nd entity} x {small, ~600 KiB data} (two large entities exceed the journal's 1 MiB page byte budget), journal followed by cursor from every start version with page limits 1, 2, 100; part 4: on every state of part 1 within the fault prefix bound, every request shape of part 1 once more with an environment fault (request context expiring after its N-th check for every N below the number of checks of the unfaulted request, binlog refusing the append, engine in replica role), a refused request must be invisible to the journal, the entity history, the retried and competing requests built from the state observed before it, and to a database rebuilt from the binlog. Non-trivial: the last request conflicts with the state and has to be refused (stale version, taken name, missing namespace, namespace rename); in part 4: a request the unfaulted run accepts is refused only because of the fault"
+	rep.Rule = "part 1: every history up to the depth bound over {create metric a / b / ns:a, group a / ns:a, namespace ns / b, dashboard a; edit of the 1st and 2nd created entity naming its current or a stale version and keeping the name / a free name c / a possibly taken name a / a name in namespace ns:c; delete with current or stale version}, all requests through RawEditEntity, state-hashing BFS over the journal; part 2: at every distinct state reached, for every entity, {edit, delete, rename} built from the same observed version in all 6 orders on fresh replays and once from 3 concurrent goroutines; part 3: every history up to its depth bound of {create, edit 1st, edit 2nd entity} x {small, ~600 KiB data} (two large entities exceed the journal's 1 MiB page byte budget), journal followed by cursor from every start version with page limits 1, 2, 100; part 4: on every state of part 1 within the fault prefix bound, every request shape of part 1 once more with an environment fault (request context expiring after its N-th check for every N below the number of checks of the unfaulted request, binlog refusing the append, engine in replica role), a refused request must be invisible to the journal, the entity history, the retried and competing requests built from the state observed before it, and to a database rebuilt from the binlog; part 5: every history up to its depth bound over {create a, create b, edit of the first entity the clients know from the latest version handed out, journal read, binlog commit up to the first non-durable event / of everything / announced once more} on the real DBV2 over an in-memory binlog whose durable offset only the explorer moves (requests in flight are parked by the engine until their commit), every answer checked against the durable binlog prefix at the moment it is handed out, then crash + restart over the durable prefix + one more create. Non-trivial: the last request conflicts with the state and has to be refused (stale version, taken name, missing namespace, namespace rename); in part 4: a request the unfaulted run accepts is refused only because of the fault; in part 5: the history ends with callers parked behind a non-durable event or had a reader parked behind two of them"
 	rep.Bounds["history_depth"] = depth
 	rep.Bounds["alphabet"] = ex.names(vmetaSeq(len(ops)))
 	rep.Bounds["paging_depth"] = mc.Pick(4, 5)
@@ -780,6 +789,8 @@ func TestVerifC15(t *testing.T) {
 
 	// part 4: requests refused by the environment (verif_c15_faults_test.go)
 	c15RunFaultPart(t, rep, ex)
+	// part 5: the durability window (verif_c15_durable_test.go)
+	c15RunDurablePart(t, rep)
 	if err := rep.Write(); err != nil {
 		t.Fatal(err)
 	}
